@@ -131,6 +131,68 @@ theorem C15_buildRoot_perm (c : Config) (req : Request) (desc : MsgD) (fs' : Lis
     simp only [Bool.not_false, if_true] at h
     cases h
 
+/-- **Declaration order, sort on or off:** permuting the fields of a message descriptor permutes the fields of the IR
+built for it (and nothing else but the order-dependent `oneOfNames` list); no hypothesis on names. -/
+theorem C15_build_perm_fields (fuel : Nat) (cfg : CfgView) (req : Request) (desc : MsgD) (fs' : List FieldD)
+    (isRoot : Bool) (path : String) (hp : fs'.Perm desc.fields) (m : Msg)
+    (h : buildMessage (fuel + 1) cfg req desc isRoot path = .ok m) :
+    ∃ m', buildMessage (fuel + 1) cfg req { desc with fields := fs' } isRoot path = .ok m' ∧
+      m'.fields.Perm m.fields ∧ m'.info.name = m.info.name ∧ m'.info.goType = m.info.goType ∧
+      m'.info.path = m.info.path ∧ m'.info.injected = m.info.injected := by
+  unfold buildMessage at h ⊢
+  by_cases he : desc.fields.isEmpty = true
+  · have hd : desc.fields = [] := by simpa using he
+    have : fs' = [] := by rw [hd] at hp; exact List.Perm.eq_nil hp
+    subst this
+    simp only [hd, List.isEmpty_nil, if_true] at h ⊢
+    exact ⟨m, h, List.Perm.refl _, rfl, rfl, rfl, rfl⟩
+  · have he' : fs'.isEmpty = false := by
+      cases hf : fs' with
+      | nil => rw [hf] at hp; have := List.Perm.nil_eq hp; simp [← this] at he
+      | cons _ _ => rfl
+    have hed : desc.fields.isEmpty = false := by simpa using he
+    simp only [he', hed, Bool.false_eq_true, if_false, core_ctx_fields] at h ⊢
+    have hk : ∀ f, keysOf { desc := { desc with fields := fs' }, path := if isRoot = true then desc.name else path } f =
+        keysOf { desc := desc, path := if isRoot = true then desc.name else path } f := fun _ => rfl
+    have hg : ∀ f, goTypeOf cfg { desc := { desc with fields := fs' }, path := if isRoot = true then desc.name else path } f =
+        goTypeOf cfg { desc := desc, path := if isRoot = true then desc.name else path } f := fun _ => rfl
+    simp only [hk, hg]
+    generalize hgd : (fun f : FieldD => buildFieldCore fuel cfg req { desc := desc, path := if isRoot = true then desc.name else path } f
+      (keysOf { desc := desc, path := if isRoot = true then desc.name else path } f)
+      (goTypeOf cfg { desc := desc, path := if isRoot = true then desc.name else path } f)
+      (f.card == Card.map) (f.card == Card.repeated) f.comment.isSome) = g at h ⊢
+    cases hc : collectFields (List.map g desc.fields) with
+    | error e => simp [hc] at h
+    | ok fs =>
+      simp only [hc] at h
+      obtain ⟨fs2, h2, p2⟩ := collectFields_perm (hp.symm.map g) fs hc
+      simp only [h2]
+      cases h
+      refine ⟨_, rfl, ?_, rfl, rfl, rfl, rfl⟩
+      by_cases hs : cfg.sort = true
+      · simp only [hs, if_true]
+        exact ((C15_sort_is_perm fs2).trans p2).trans (C15_sort_is_perm fs).symm
+      · have hs' : cfg.sort = false := by simpa using hs
+        simp only [hs', Bool.false_eq_true, if_false]
+        exact p2
+
+/-- **Declaration order does not change what CopyTo does – sort on or off**: the converter generated for the permuted
+descriptor and the one for the original succeed on the same inputs and return the same attributes (as lookup
+functions), the same diagnostics and hook calls up to order. -/
+theorem C15_declaration_order_copyTo (fuel : Nat) (cfg : CfgView) (req : Request) (desc : MsgD) (fs' : List FieldD)
+    (isRoot : Bool) (path : String) (hp : fs'.Perm desc.fields) (m : Msg)
+    (h : buildMessage (fuel + 1) cfg req desc isRoot path = .ok m)
+    (hnd : (m.fields.map (·.info.nameSnake)).Nodup) :
+    ∃ m', buildMessage (fuel + 1) cfg req { desc with fields := fs' } isRoot path = .ok m' ∧
+      ∀ (obj : GoVal) (tf : TfVal),
+        ((∃ r', copyTo m' obj tf = .ok r') ↔ (∃ r, copyTo m obj tf = .ok r)) ∧
+        ∀ r' r, copyTo m' obj tf = .ok r' → copyTo m obj tf = .ok r →
+          (∃ as' as atys, r'.tf = .obj false false (some as') atys ∧ r.tf = .obj false false (some as) atys ∧
+            ∀ key, as'.lookup key = as.lookup key) ∧
+          r'.diags.Perm r.diags ∧ r'.hooks.Perm r.hooks := by
+  obtain ⟨m', hb, hperm, _⟩ := C15_build_perm_fields fuel cfg req desc fs' isRoot path hp m h
+  exact ⟨m', hb, fun obj tf => C15_copyTo_perm m' m hperm hnd obj tf⟩
+
 /-- non-vacuity: two scalar fields in both orders build the same sorted IR -/
 def exD : MsgD := { name := "M", fields := [{ name := "b", type := "string" }, { name := "a", type := "int32" }] }
 def exReq : Request := { file := { name := "f.proto", package := "p", messages := [exD] } }
